@@ -137,7 +137,7 @@ func runScenario(p freeParams, r *vgen.Rand) (evs []event, problem string) {
 			defer producers.Done()
 			for k := 0; k < p.perProducer; k++ {
 				perturb(pr)
-				rg.end(base+k, !pr.Chance(1, 10))
+				rg.end(base+k, !pr.Chance(1, 10), pr.Intn(8))
 			}
 		}()
 	}
@@ -195,7 +195,7 @@ func runScenario(p freeParams, r *vgen.Rand) (evs []event, problem string) {
 		}
 		others.Wait()
 		for k := 0; k < p.afterShutdown; k++ {
-			rg.end(nextID+k, true)
+			rg.end(nextID+k, true, k+1)
 		}
 		if p.afterShutdown > 0 {
 			ctx, cancel := context.WithTimeout(context.Background(), time.Second)
